@@ -232,7 +232,7 @@ ReadOutcome(semr, semv, isAcc) ==
         ELSE IF semr.err = "cycle" THEN Check("C14", ev.kind = "cycle", <<"wrong panic for cycle", ev.kind, ev.msg>>)
         ELSE IF semr.err = "diverge" THEN Check("C15", ev.kind \in {"iterlimit", "cancel_pp"}, <<"wrong panic for divergence", ev.kind, ev.msg>>)
         ELSE IF semr.err \in {"specforeign", "spectwice"} THEN TRUE
-        ELSE Check(IF inj THEN "C22" ELSE "C01", FALSE, <<"unexpected panic", ev.kind, ev.msg, st.cur>>)
+        ELSE CheckAll(IF inj THEN {"C22"} ELSE ValueProps, FALSE, <<"unexpected panic", ev.kind, ev.msg, st.cur>>)
     ELSE TRUE
 
 OnRetRead ==
